@@ -124,8 +124,15 @@ def check(prog, run, pr_cases=None, mode_cases=None, xcopy_cases=None, floors=Tr
         run.count("cases", ncase)
         return
     # _pad4_len for every residue (the argument is only ever measured with len())
-    f = prog.func("pyscsi.pyscsi.scsi_cdb_persistentreservein", None, "_pad4_len")
+    try:
+        f = prog.func("pyscsi.pyscsi.scsi_cdb_persistentreservein", None, "_pad4_len")
+    except AnalysisError:
+        f = None          # a private helper: where the padding is computed is the library's business
+        run.notes.append("no helper called _pad4_len: the padding of iSCSI names is decided through the TransportID images only")
     for n in range(0, 41):
+        if f is None:
+            run.ok("pad4-length", "name of %d characters [decided through the parameter-list images]" % n, nontrivial=False)
+            continue
         ps = I.explore(lambda n=n: I.call_function(f, ["x" * n], {}, None, _F()), max_paths=4)
         got = ps[0].value if ps and ps[0].returned else None
         want = pad4_reference(n)
